@@ -142,35 +142,26 @@ SUITES = {
 }
 
 
-def eval2(ctx, name, terms, f_oracle, f_agree, shard):
-    """One coqc per shard evaluates both the oracle and the agreement function on every case
+GO = ("(fix go (i : nat) l := match l with [] => [] | c :: l' => "
+      "if %s c then go (S i) l' else i :: go (S i) l' end) O cases_")
+
+
+def eval_shard(ctx, name, k, terms, idxs, f_oracle, f_agree):
+    """One coqc evaluates both the oracle and the agreement function on every case of the shard
     (vm_compute in the kernel) and prints the indexes where each is false."""
-    shards = [list(range(i, min(i + shard, len(terms)))) for i in range(0, len(terms), shard)]
-    go = ("(fix go (i : nat) l := match l with [] => [] | c :: l' => "
-          "if %s c then go (S i) l' else i :: go (S i) l' end) O cases_")
-
-    def run_shard(k):
-        idxs = shards[k]
-        body = HDR + "\nDefinition cases_ := [\n  " + ";\n  ".join(terms[i] for i in idxs) + "\n].\n"
-        body += "Definition bad_o_ := Eval vm_compute in %s.\nPrint bad_o_.\n" % (go % f_oracle)
-        body += "Definition bad_a_ := Eval vm_compute in %s.\nPrint bad_a_.\n" % (go % f_agree)
-        rc, out = ctx.coq_run("%s_%03d" % (name, k), body, timeout=900)
-        if rc != 0:
-            raise RuntimeError("coqc failed on %s shard %d:\n%s" % (name, k, out[-3000:]))
-        res = []
-        for v in ("bad_o_", "bad_a_"):
-            m = re.search(v + r"\s*=\s*(\[.*?\])\s*:\s*list nat", out, re.S)
-            if not m:
-                raise RuntimeError("cannot parse coqc output for %s shard %d:\n%s" % (name, k, out[-2000:]))
-            res.append([idxs[int(x)] for x in re.findall(r"\d+", m.group(1))])
-        return res
-
-    bad_o, bad_a = [], []
-    with cf.ThreadPoolExecutor(max_workers=int(os.environ.get("VERIF_JOBS", "8"))) as ex:
-        for o, a in ex.map(run_shard, range(len(shards))):
-            bad_o.extend(o)
-            bad_a.extend(a)
-    return sorted(bad_o), sorted(bad_a)
+    body = HDR + "\nDefinition cases_ := [\n  " + ";\n  ".join(terms[i] for i in idxs) + "\n].\n"
+    body += "Definition bad_o_ := Eval vm_compute in %s.\nPrint bad_o_.\n" % (GO % f_oracle)
+    body += "Definition bad_a_ := Eval vm_compute in %s.\nPrint bad_a_.\n" % (GO % f_agree)
+    rc, out = ctx.coq_run("%s_%03d" % (name, k), body, timeout=900)
+    if rc != 0:
+        raise RuntimeError("coqc failed on %s shard %d:\n%s" % (name, k, out[-3000:]))
+    res = []
+    for v in ("bad_o_", "bad_a_"):
+        m = re.search(v + r"\s*=\s*(\[.*?\])\s*:\s*list nat", out, re.S)
+        if not m:
+            raise RuntimeError("cannot parse coqc output for %s shard %d:\n%s" % (name, k, out[-2000:]))
+        res.append([idxs[int(x)] for x in re.findall(r"\d+", m.group(1))])
+    return res
 
 
 def short(r):
@@ -178,9 +169,8 @@ def short(r):
     return s if len(s) < 900 else s[:900] + "...(truncated, full case in the replay file)"
 
 
-def run_suite(ctx, vh, name, args, shard=400, label=None):
-    import time
-    t0 = time.time()
+def collect(ctx, vh, jobs, name, args, shard=400, label=None):
+    """Run the harness for one suite and queue its cases for evaluation."""
     build, key, what = SUITES[name]
     label = label or name
     rows = ctx.vh_jsonl(vh, "eiocodec", ["-mode", name, "-seed", ctx.seed] + args)
@@ -190,26 +180,50 @@ def run_suite(ctx, vh, name, args, shard=400, label=None):
         ctx.violation("harness produced no case for suite %s" % label,
                       {"kind": "correspondence-broken", "suite": label}, no_input=True)
         return
-    terms = [build(r) for r in rows]
     for r in rows:
         k, d = key(r)
         ctx.count(1, nontrivial_key=k, dist=d)
     ctx.sample({"suite": label, "case": rows[len(rows) // 2]}, limit=8)
-    bad_oracle, bad_agree = eval2(ctx, "c11_" + label.replace("-", "_"), terms, "oracle_" + name, "agree_" + name, shard)
-    ctx.note("suite %s: %d cases in %.1fs" % (label, len(rows), time.time() - t0))
-    ctx.obligation("correspondence:%s" % label, "correspondence", not bad_agree,
-                   "%d cases, %d disagree" % (len(rows), len(bad_agree)))
-    ctx.obligation("oracle:%s" % label, "oracle", not bad_oracle, "%d cases, %d fail" % (len(rows), len(bad_oracle)))
-    for i in bad_oracle[:3]:
-        ctx.fail_or_known(None, "%s: the property fails on the implementation's own output (round trip / protocol "
-                          "form / advertised length / no panic / allocation within the limit): %s" % (what, short(rows[i])),
-                          {"kind": "failing-input", "engine": "eiocodec", "mode": name, "case": rows[i]})
-    if bad_agree and not bad_oracle:
-        i = bad_agree[0]
-        ctx.violation("%s no longer computes what the Coq model computes (theorems %s are about the model); "
-                      "first differing case: %s" % (what, ", ".join(THEOREMS[name]), short(rows[i])),
-                      {"kind": "correspondence-broken", "suite": label, "theorems": THEOREMS[name], "case": rows[i]},
-                      no_input=True)
+    jobs.append({"name": name, "label": label, "rows": rows, "terms": [build(r) for r in rows], "shard": shard})
+
+
+def evaluate(ctx, jobs):
+    """Evaluate every queued shard (all suites share one pool), then report suite by suite."""
+    tasks = []
+    for j in jobs:
+        n = len(j["terms"])
+        j["bad_o"], j["bad_a"] = [], []
+        for k, i in enumerate(range(0, n, j["shard"])):
+            tasks.append((j, k, list(range(i, min(i + j["shard"], n)))))
+    # heavy shards (large frames) first
+    tasks.sort(key=lambda t: -sum(len(t[0]["terms"][i]) for i in t[2]) - (10 ** 6 if t[0]["name"] == "wt" else 0))
+
+    def work(t):
+        j, k, idxs = t
+        return j, eval_shard(ctx, "c11_" + j["label"].replace("-", "_"), k, j["terms"], idxs,
+                             "oracle_" + j["name"], "agree_" + j["name"])
+
+    with cf.ThreadPoolExecutor(max_workers=int(os.environ.get("VERIF_JOBS", "8"))) as ex:
+        for j, (o, a) in ex.map(work, tasks):
+            j["bad_o"].extend(o)
+            j["bad_a"].extend(a)
+    for j in jobs:
+        name, label, rows = j["name"], j["label"], j["rows"]
+        what = SUITES[name][2]
+        bad_oracle, bad_agree = sorted(j["bad_o"]), sorted(j["bad_a"])
+        ctx.obligation("correspondence:%s" % label, "correspondence", not bad_agree,
+                       "%d cases, %d disagree" % (len(rows), len(bad_agree)))
+        ctx.obligation("oracle:%s" % label, "oracle", not bad_oracle, "%d cases, %d fail" % (len(rows), len(bad_oracle)))
+        for i in bad_oracle[:3]:
+            ctx.fail_or_known(None, "%s: the property fails on the implementation's own output (round trip / protocol "
+                              "form / advertised length / no panic / allocation within the limit): %s" % (what, short(rows[i])),
+                              {"kind": "failing-input", "engine": "eiocodec", "mode": name, "case": rows[i]})
+        if bad_agree and not bad_oracle:
+            i = bad_agree[0]
+            ctx.violation("%s no longer computes what the Coq model computes (theorems %s are about the model); "
+                          "first differing case: %s" % (what, ", ".join(THEOREMS[name]), short(rows[i])),
+                          {"kind": "correspondence-broken", "suite": label, "theorems": THEOREMS[name], "case": rows[i]},
+                          no_input=True)
 
 
 def run(ctx):
@@ -230,17 +244,23 @@ def run(ctx):
     vh = ctx.go_build()
     if vh is None:
         return
-    run_suite(ctx, vh, "b64", ["-n", 150 if q else 6000], shard=350 if q else 1000)
-    run_suite(ctx, vh, "pkt", ["-n", 60 if q else 3000], shard=90 if q else 400)
-    run_suite(ctx, vh, "dec", ["-n", 300 if q else 12000, "-ex", 3 if q else 5], shard=600 if q else 2500)
-    run_suite(ctx, vh, "pay", ["-n", 60 if q else 3000], shard=31 if q else 400)
-    run_suite(ctx, vh, "paydec", ["-n", 150 if q else 6000], shard=200 if q else 1000)
-    run_suite(ctx, vh, "wt", ["-n", 60 if q else 1500] + ([] if q else ["-thorough"]), shard=10 if q else 40)
-    run_suite(ctx, vh, "wtdec", ["-n", 200 if q else 8000], shard=260 if q else 1200)
+    import time
+    jobs = []
+    t0 = time.time()
+    collect(ctx, vh, jobs, "b64", ["-n", 150 if q else 6000], shard=350 if q else 1000)
+    collect(ctx, vh, jobs, "pkt", ["-n", 60 if q else 3000], shard=90 if q else 400)
+    collect(ctx, vh, jobs, "dec", ["-n", 300 if q else 12000, "-ex", 3 if q else 5], shard=600 if q else 2500)
+    collect(ctx, vh, jobs, "pay", ["-n", 60 if q else 3000], shard=31 if q else 400)
+    collect(ctx, vh, jobs, "paydec", ["-n", 150 if q else 6000], shard=200 if q else 1000)
+    collect(ctx, vh, jobs, "wt", ["-n", 60 if q else 1500] + ([] if q else ["-thorough"]), shard=10 if q else 40)
+    collect(ctx, vh, jobs, "wtdec", ["-n", 200 if q else 8000], shard=260 if q else 1200)
     if q:
         # every length around the form boundaries + a stride over the rest
-        run_suite(ctx, vh, "wtlen", ["-lo", 0, "-hi", 300, "-stride", 1], shard=300, label="wtlen-low")
-        run_suite(ctx, vh, "wtlen", ["-lo", 65400, "-hi", 65700, "-stride", 1], shard=300, label="wtlen-boundary")
-        run_suite(ctx, vh, "wtlen", ["-lo", 301, "-hi", 70000, "-stride", 263], shard=300, label="wtlen-stride")
+        collect(ctx, vh, jobs, "wtlen", ["-lo", 0, "-hi", 300, "-stride", 1], shard=300, label="wtlen-low")
+        collect(ctx, vh, jobs, "wtlen", ["-lo", 65400, "-hi", 65700, "-stride", 1], shard=300, label="wtlen-boundary")
+        collect(ctx, vh, jobs, "wtlen", ["-lo", 301, "-hi", 70000, "-stride", 263], shard=300, label="wtlen-stride")
     else:
-        run_suite(ctx, vh, "wtlen", ["-lo", 0, "-hi", 70000, "-stride", 1], shard=5000, label="wtlen-all")
+        collect(ctx, vh, jobs, "wtlen", ["-lo", 0, "-hi", 70000, "-stride", 1], shard=5000, label="wtlen-all")
+    t1 = time.time()
+    evaluate(ctx, jobs)
+    ctx.note("harness %.1fs, kernel evaluation of %d cases in %.1fs" % (t1 - t0, sum(len(j["rows"]) for j in jobs), time.time() - t1))
